@@ -69,6 +69,19 @@ Theorem c_displaced_cache wb ls r x :
   get_region (fst (set_region (h_cache (reach wb ls)) r)) (r_id x) = None /\ In x (cached (h_cache (reach wb ls))).
 Proof. apply displaced_gone_from_cache_pf. apply reach_inv. Qed.
 
-Theorem c_storage_seq rs : Forall (fun r => wf_region r = true) rs ->
-  forall id x, load_region (h_store (seq_run false rs)) id = Some x -> get_region (h_cache (seq_run false rs)) id <> None.
-Proof. intros F. destruct (storage_subset_run_pf rs F) as (_ & _ & (_ & _ & S)). exact S. Qed.
+Theorem c_storage_seq wb ops : Forall seq_op ops ->
+  forall id, held (h_store (seq_ops wb ops)) id -> get_region (h_cache (seq_ops wb ops)) id <> None.
+Proof. intros F. destruct (storage_subset_ops_pf wb ops F) as (_ & _ & (_ & S)). exact S. Qed.
+
+Theorem c_storage_seq_load wb ops : Forall seq_op ops ->
+  forall id x, load_region (h_store (seq_ops wb ops)) id = Some x -> get_region (h_cache (seq_ops wb ops)) id <> None.
+Proof. intros F id x L. apply (c_storage_seq wb ops F). eapply load_held; eauto. Qed.
+
+Theorem c_displaced_storage wb ops r x : Forall seq_op ops -> wf_region r = true ->
+  get_region (h_cache (seq_ops wb ops)) (r_id x) <> None ->
+  get_region (h_cache (fst (heartbeat (seq_ops wb ops) r))) (r_id x) = None ->
+  load_region (h_store (fst (heartbeat (seq_ops wb ops) r))) (r_id x) = None /\ ~ held (h_store (fst (heartbeat (seq_ops wb ops) r))) (r_id x).
+Proof.
+  intros F W. destruct (storage_subset_ops_pf wb ops F) as (I & T & SS).
+  apply displaced_gone_from_storage_seq_pf; auto. rewrite T. reflexivity.
+Qed.
